@@ -74,6 +74,8 @@ pub trait Shapes2 {
     fn npo_ref_out(&self) -> Option<&u64>;
     fn npo_fn(&self, f: Option<extern "C" fn(u32) -> u32>, x: u32) -> u32;
     fn res_unit(&self, r: Result<(), u8>) -> Result<(), u8>;
+    /// calls the callback three times WHATEVER it answers (a `false` is only a request)
+    fn cb_all(&self, cb: OpaqueCallback<u32>);
 }
 impl Shapes for Imp {
     fn sl_u8(&self, s: &[u8]) { let r = self.r(1); r.ptr = s.as_ptr() as usize; r.len = s.len(); if r.idx < s.len() { r.elem = s[r.idx] as u64; } }
@@ -97,7 +99,7 @@ impl Shapes for Imp {
     fn ret_ref(&self) -> &u64 { let _ = self.r(19); &self.cell }
     fn cb(&self, mut cb: OpaqueCallback<u32>) { let r = self.r(20); let a = cb.call(r.wval as u32); let b = if a { cb.call(r.out_payload as u32) } else { false }; r.variant = a as u8 | (b as u8) << 1; }
     fn int_res(&self, v: u32) -> Result<u32, std::io::Error> { let r = self.r(22); r.payload = v as u64; if r.out_variant == 0 { Ok(r.out_payload as u32) } else { Err(std::io::Error::from_raw_os_error(r.wval as i32)) } }
-    fn it(&self, mut it: CIterator<u32>) { let r = self.r(21); let a = it.next(); let b = it.next(); let c = it.next(); r.variant = a.is_some() as u8 + b.is_some() as u8 + c.is_some() as u8; r.payload = a.unwrap_or(0) as u64 | (b.unwrap_or(0) as u64) << 32; }
+    fn it(&self, mut it: CIterator<u32>) { let r = self.r(21); let a = it.next(); let b = it.next(); let c = it.next(); r.variant = a.is_some() as u8 + b.is_some() as u8 + c.is_some() as u8; r.payload = a.unwrap_or(0) as u64 | (b.unwrap_or(0) as u64) << 32; r.len = (a.is_some() as usize) | (b.is_some() as usize) << 1 | (c.is_some() as usize) << 2; r.elem = c.unwrap_or(0) as u64; }
 }
 
 impl Shapes2 for Imp {
@@ -105,6 +107,7 @@ impl Shapes2 for Imp {
     fn npo_mut(&self, v: Option<&mut u64>) { let r = self.r(24); r.variant = v.is_some() as u8; if let Some(x) = v { r.ptr = x as *mut u64 as usize; r.payload = *x; *x = r.wval; } }
     fn npo_ref_out(&self) -> Option<&u64> { let r = self.r(24); if r.out_variant == 1 { Some(&self.cell) } else { None } }
     fn npo_fn(&self, f: Option<extern "C" fn(u32) -> u32>, x: u32) -> u32 { let r = self.r(25); r.variant = f.is_some() as u8; r.ptr = f.map(|p| p as usize).unwrap_or(0); match f { Some(g) => g(x), None => x } }
+    fn cb_all(&self, mut cb: OpaqueCallback<u32>) { let r = self.r(27); let (w, o) = (r.wval as u32, r.out_payload as u32); let a = cb.call(w); let b = cb.call(o); let c = cb.call(w ^ o); r.variant = a as u8 | (b as u8) << 1 | (c as u8) << 2; }
     fn res_unit(&self, x: Result<(), u8>) -> Result<(), u8> { let r = self.r(26); match x { Ok(()) => { r.variant = 0 } Err(e) => { r.variant = 1; r.payload = e as u64 } } if r.out_variant == 0 { Ok(()) } else { Err(r.out_payload as u8) } }
 }
 
